@@ -172,7 +172,12 @@ func (route *Route) InspectRoute(
 			if err != nil {
 				return math.Int{}, RouteResult{}, err
 			}
-			results[i] = routeResultBuffer
+			// results are stored in route order (the exact-out walk visits the hops last-first)
+			if !reverse {
+				results[i] = routeResultBuffer
+			} else {
+				results[len(strategy.Series.Routes)-1-i] = routeResultBuffer
+			}
 
 			amountExactBuffer = amountResultBuffer
 		}
